@@ -94,7 +94,7 @@ RULE = (
     "the previous range with dead time, past-the-end sample of the exposure range, each also 1 ns / 1 sample off, open "
     "ends, slices of slices -, crop_by_distance to pixel rows, flip, copy.copy, calibrate_to_kbp, in every order; a "
     "refused slice of a processed kymograph) and/or whose photon streams start pcut samples after the info wave (the "
-    "start is repaired on first access; judged once settled); observed: timestamps, both kinds of line ranges, line and "
+    "start is repaired on first access; judged once settled; in two thirds of these cases pixel/line time (and duration) are asked once BEFORE that access - whatever they answer then, F5 - and must not be remembered afterwards); observed: timestamps, both kinds of line ranges, line and "
     "pixel time, channel sums vs image line totals, start/stop/image shape. Small scope: P<=3 (thorough 4), <=3 lines, "
     "k<=3, dead<=2, lead<=1: every pair of slice bounds (quick: every 13th; thorough: every 2nd/3rd for two or more lines), every one- and two-step processing "
     "sequence and own-range slice followed by a processing step (quick: a quarter of the geometries), every pcut in the "
@@ -319,6 +319,10 @@ def impl_dkymo(case, iw, counts, cstart, cdata):
     def make():
         k = build(case, iw, counts)
         if case.get("pcut", 0):
+            if case.get("peek"):  # timing asked BEFORE the repair (whatever it answers: F5) must not be remembered after it
+                _try(lambda: k.pixel_time_seconds)
+                _try(lambda: k.line_time_seconds)
+                _try(lambda: k.duration) if case["peek"] > 1 else None
             k.get_image("green")  # the first access to a photon stream repairs the start (F5: judged once settled)
             if int(k.start) < case["start"] + case["pcut"] * case["dt"]:
                 return "unsettled"
@@ -1362,7 +1366,7 @@ def derived_small_scope(quick):
         # --- the photon streams start inside (or before) the first line: the start is repaired
         if lines >= 3 and dead >= 1:
             for pcut in range(1, lead + P * k + dead + 1):
-                yield dk_case("small-scope", *geo, [], pcut)
+                yield dk_case("small-scope", *geo, [], pcut, peek=(pcut + n) % 3)
             yield dk_case("small-scope", *geo, [["c", 0, max(1, P - 1)], ["y"]], lead + 1)
             yield dk_case("small-scope", *geo, [["s", [lead + P * k + dead, 0], [lead + 2 * (P * k + dead), 0]]], lead + k)
         if quick and (n % 4):
@@ -1431,7 +1435,8 @@ def derived_random(quick, rng):
                 steps.append([kind])
                 processed = processed or kind == "f"
         yield vary_channel(dk_case("random-derived", start, dt, lead, k, P, dead, lines, steps, pcut, tail, axis=sub.choice([0, 1]),
-                                   cseed=sub.randint(0, 9), pre=sub.randint(0, 4), post=sub.randint(0, 4), subseed=i), sub)
+                                   cseed=sub.randint(0, 9), pre=sub.randint(0, 4), post=sub.randint(0, 4), subseed=i,
+                                   peek=sub.choice([0, 1, 2]) if pcut else 0), sub)
 
 
 def kmean_random(quick, rng):
